@@ -409,9 +409,16 @@ def depth_programs(tier, seed):
     progs.append(DepthProg('depth/macro-named-inc', [Def('INC', '"f.svh"'), Inc('f.svh', 'INC')], {'f.svh': [T('f0', '\n')]}, rd=S, idp=S))
     progs.append(DepthProg('depth/inc-in-macro', [Def('INC', '`include "f.svh"', body_items=[Inc('f.svh')]), Use('INC', None, '\n')],
                            {'f.svh': [T('f0', '\n')]}, rd=S, idp=S))
+    # the next usage arrives through an actual argument / a default value: the macro's own text holds no usage, the rescan
+    # of its expansion is still one level deeper
+    progs.append(DepthProg('depth/arg-pass', [Def('N', 'y'), Def('ID', 'x', [('x', None)]), Use('ID', ['`N'], '\n')], rd=S))
+    progs.append(DepthProg('depth/arg-pass2', [Def('N', 'y'), Def('ID', '(x)', [('x', None)]), Use('ID', ['`ID(`N)'], '\n')], rd=S))
+    progs.append(DepthProg('depth/default-pass', [Def('N', 'y'), Def('ID', 'x', [('x', '`N')]), Use('ID', [None], '\n')], rd=S))
     # cycles (concrete start depths)
     for p_ in progs:
         p_.strip = 'sym'
+    progs.append(DepthProg('cycle/macro-through-argument', [Def('LOOP', 'x(x)', [('x', None)]), Use('LOOP', ['`LOOP'], '\n')]))
+    progs.append(DepthProg('cycle/macro-through-default', [Def('A', 'x', [('x', '`A()')]), Use('A', [None], '\n')]))
     progs.append(DepthProg('cycle/macro-direct', [Def('M', '`M', body_items=[Use('M', None, '')]), Use('M', None, '\n')]))
     progs.append(DepthProg('cycle/macro-mutual', [Def('M', '`N', body_items=[Use('N', None, '')]), Def('N', '`M', body_items=[Use('M', None, '')]), Use('M', None, '\n')]))
     progs.append(DepthProg('cycle/macro-3', [Def('M', '`N', body_items=[Use('N', None, '')]), Def('N', '`O', body_items=[Use('O', None, '')]),
@@ -431,6 +438,12 @@ def depth_programs(tier, seed):
             items.append(Def('M%d' % i, '`M%d' % (i + 1), body_items=[Use('M%d' % (i + 1), None, '')]))
         items.append(Use('M1', None, '\n'))
         progs.append(DepthProg('chain/macro-%d' % n, items))
+    # 64 / 65 usages nested through the actual argument of a macro whose text is just its formal
+    for n in (64, 65):
+        a = 'deep'
+        for i in range(n - 1):
+            a = '`ID(' + a + ')'
+        progs.append(DepthProg('chain/macro-args-%d' % n, [Def('ID', 'x', [('x', None)]), Use('ID', [a], '\n')]))
     # 70 sibling includes in one file are legal (the limit bounds nesting, not the number of includes)
     progs.append(DepthProg('chain/flat-70-includes', [Inc('f.svh') for _ in range(70)] + [T('z', '\n')], {'f.svh': [T('f0', '\n')]}))
     return progs
